@@ -2679,6 +2679,12 @@ class Matrix:
             name = sub_element[0]
             params = tuple(REGEX_TRANSFORM_PARAMETER.findall(sub_element[1]))
             params = [mag + units for mag, units in params]
+            if not params and name not in (
+                SVG_TRANSFORM_MATRIX,
+                SVG_TRANSFORM_TRANSLATE,
+                SVG_TRANSFORM_SCALE,
+            ):
+                raise ValueError("%s() requires a number" % name)
             if SVG_TRANSFORM_MATRIX == name:
                 params = list(map(float, params))
                 if len(params) != 6:
